@@ -15,13 +15,13 @@ CLAIMED = {
     ),
     "C02": (
         "CFG dominance / must-pass checks on read_xref_from and getobj, sibling-agreement dependence check on the two cross-reference-stream readers, raise-class check on the classic loader's failure exits, binding checks; write-set inventory of the object caches; refill-before-read typestate of the line reader; sibling agreement of the entry-type decoding; PSEOF-handler coverage of the loaders' tokenizer calls; binding checks of the classic-table, body-scan and object-stream readers",
-        "Decides structural necessary conditions of xref resolution: newest-first collection (append dominates the descent into XRefStm then Prev), first hit wins in getobj and in the trailer loop, both readers of a cross-reference stream index entries with a counter carried across /Index ranges, every failure exit of the classic loader raises PDFNoValidXRef and its handler engages the body scan (fallback flag set before loading; stream data extended only in fallback mode), object-stream member index and entry-field slicing. Equality of answers across physical forms, EOL styles and buffer sizes is value/history level and not decided. Also decides that the object caches are written only by the lookup that owns them, under the key looked up (an entry registered elsewhere would bypass the newest-first walk). Also decides that the line reader refills its buffer before every look at it and that both xref-stream readers default the entry type to 1. Also decides that end of input inside a loader is routed to the body scan, and the entry bindings of the classic table, the body scan and object-stream parsing. Round 6: every get_pos signals absence with a KeyError subclass, the signal getobj's fall-through catches (C02-R11); a malformed classic-table line raises PDFNoValidXRef rather than being skipped (C02-R12).",
+        "Decides structural necessary conditions of xref resolution: newest-first collection (append dominates the descent into XRefStm then Prev), first hit wins in getobj and in the trailer loop, both readers of a cross-reference stream index entries with a counter carried across /Index ranges, every failure exit of the classic loader raises PDFNoValidXRef and its handler engages the body scan (fallback flag set before loading; stream data extended only in fallback mode), object-stream member index and entry-field slicing. Equality of answers across physical forms, EOL styles and buffer sizes is value/history level and not decided. Also decides that the object caches are written only by the lookup that owns them, under the key looked up (an entry registered elsewhere would bypass the newest-first walk). Also decides that the line reader refills its buffer before every look at it and that both xref-stream readers default the entry type to 1. Also decides that end of input inside a loader is routed to the body scan, and the entry bindings of the classic table, the body scan and object-stream parsing. Round 6: every get_pos signals absence with a KeyError subclass, the signal getobj's fall-through catches (C02-R11); a malformed classic-table line raises PDFNoValidXRef rather than being skipped (C02-R12). Round 7: the /Index default is the two-argument get (C02-R13).",
         "Trusts CPython ast and the reading of ISO 32000-1 7.5.4-7.5.8 encoded in the rule.",
         "DESIGN.md §5 C02",
     ),
     "C03": (
         "table folding of filter-name literals vs ISO 32000-1 Tables 6/94, dispatch-chain extraction, parameter binding against callee signatures, ceiling-division normal forms for row-buffer units, polynomial/comparison normal form of the Paeth function, CFG dominance on the payload read; write-set of the payload variable; constant/case-split checks of the RunLength, ASCIIHex and ASCII85 decoders",
-        "Decides structural necessary conditions of stream decoding: names/abbreviations and the decoder each reaches, pairing and order of filters and parameters with the predictor after its filter, predictor dispatch/defaults/bindings, byte units of the PNG row buffers, the Paeth function and per-type operands, payload delimited by /Length after the stream line. Round-trip equality of the LZW/RunLength/ASCII85/Flate decoders is value level and not decided. Also decides that the payload is modified only by fallback-mode appends, and the case split and constants of the byte-oriented decoders. Round 6: the declared /Predictor value takes no part in PNG row decoding (each row's filter is its tag byte).",
+        "Decides structural necessary conditions of stream decoding: names/abbreviations and the decoder each reaches, pairing and order of filters and parameters with the predictor after its filter, predictor dispatch/defaults/bindings, byte units of the PNG row buffers, the Paeth function and per-type operands, payload delimited by /Length after the stream line. Round-trip equality of the LZW/RunLength/ASCII85/Flate decoders is value level and not decided. Also decides that the payload is modified only by fallback-mode appends, and the case split and constants of the byte-oriented decoders. Round 6: the declared /Predictor value takes no part in PNG row decoding (each row's filter is its tag byte). Round 7: every path through a filter stage reaches the predictor test (must-pass).",
         "Trusts spec/pdf_filters.json (transcribed from ISO 32000-1 and PNG 1.2).",
         "DESIGN.md §5 C03",
     ),
@@ -33,7 +33,7 @@ CLAIMED = {
     ),
     "C05": (
         "arity/dispatch table check vs ISO 32000-1 Annex A, must-call ordering on handler CFGs, polynomial normal forms of the positioning kernels and pen-advance bindings, copy-completeness of state objects, pairing/restore checks on the form-XObject branch; truth-test lint on safe_float/safe_int results; width-table guard shared with C07; write-set of the stream switch (fillfp); operand-stack discipline of pop; refill-sequence check of the content parser; fresh-state write-set of render_contents; per-interpreter colour-space table",
-        "Decides the structural necessary conditions of the text model: each text/graphics-state operator exists with the spec'd operand count and is only invoked with all operands; ', \", TD, Tj decompose as 9.4.2-9.4.3 prescribe; Td/TD/T*/Tm/BT/cm compute the spec formulas (polynomial identities); q/Q and TJ snapshots copy every state field; nested form execution uses a fresh interpreter, own/copied resources, balanced figure bracket and re-issues the caller's CTM; scale factors and parameter bindings of the pen advance are the spec's. Numeric glyph positions for arbitrary programs and font metrics are not decided. Also decides that converted operands are rejected only when None (0 is a value) and that an explicit zero width in a width table wins over the default. Also decides that switching to the next content stream keeps the lexical state and that pop(n) always consumes what it returns. Also decides that every content starts from a fresh state and that the buffer position of the content parser is taken from the open stream. Round 6: the composite operators ' and \" touch the text state only through Tw/Tc/T*/TJ (C05-R13); state-copy completeness accepts the setattr-loop spelling.",
+        "Decides the structural necessary conditions of the text model: each text/graphics-state operator exists with the spec'd operand count and is only invoked with all operands; ', \", TD, Tj decompose as 9.4.2-9.4.3 prescribe; Td/TD/T*/Tm/BT/cm compute the spec formulas (polynomial identities); q/Q and TJ snapshots copy every state field; nested form execution uses a fresh interpreter, own/copied resources, balanced figure bracket and re-issues the caller's CTM; scale factors and parameter bindings of the pen advance are the spec's. Numeric glyph positions for arbitrary programs and font metrics are not decided. Also decides that converted operands are rejected only when None (0 is a value) and that an explicit zero width in a width table wins over the default. Also decides that switching to the next content stream keeps the lexical state and that pop(n) always consumes what it returns. Also decides that every content starts from a fresh state and that the buffer position of the content parser is taken from the open stream. Round 6: the composite operators ' and \" touch the text state only through Tw/Tc/T*/TJ (C05-R13); state-copy completeness accepts the setattr-loop spelling. Round 7: the recorded Tc-before-glyph finding is keyed by its guard; any other guard is reported.",
         "Trusts the transcription of Annex A in spec/pdf_operators.json. Known finding C05-R6 (character spacing added before instead of after a glyph) is recorded, not repaired.",
         "DESIGN.md §5 C05",
     ),
@@ -87,19 +87,19 @@ CLAIMED = {
     ),
     "C12": (
         "effect analysis: complete inventory of module/class-level mutable state and of every function-level write to it (item stores, mutator calls, class/module attribute stores, global statements) against a reviewed allow-list; CFG dominance of copy-before-store on shared tables; constructor-site enumeration for mutators of shareable CMap objects; mutable-default scan; cache-path sibling agreement; flow-insensitive alias analysis of the target of every item store / mutator call against the document's parsed dictionaries and lists; dependence analysis of memo-table stores (value depends on the key only); cache write-set inventory (shared with C02); key-expression check of the font cache",
-        "Decides purity as absence of channels: no function writes process-wide state except two reviewed memo tables and the interning tables, shared encoding/colour-space tables are copied before any store, CMap mutators only run on freshly constructed maps, entry points construct their managers per call, caches store exactly what the uncached path returns under the caching flag, and no function writes into a dictionary or list that aliases a parsed (cached) document object. It does not decide bit-for-bit equality of outputs across histories. Also decides that the value stored in a process-wide memo table depends on the key alone and that object caches are only written by their owning lookup. Also decides that the font cache is keyed by object numbers only. Round 6: per-page interpreter state is created fresh (C12-R9, shared with C05-R11); the interned-name tables only grow (C12-R10).",
+        "Decides purity as absence of channels: no function writes process-wide state except two reviewed memo tables and the interning tables, shared encoding/colour-space tables are copied before any store, CMap mutators only run on freshly constructed maps, entry points construct their managers per call, caches store exactly what the uncached path returns under the caching flag, and no function writes into a dictionary or list that aliases a parsed (cached) document object. It does not decide bit-for-bit equality of outputs across histories. Also decides that the value stored in a process-wide memo table depends on the key alone and that object caches are only written by their owning lookup. Also decides that the font cache is keyed by object numbers only. Round 6: per-page interpreter state is created fresh (C12-R9, shared with C05-R11); the interned-name tables only grow (C12-R10). Round 7: decode() runs under `self.data is None` only (C12-R11).",
         "Assumes deterministic dict order/float arithmetic and immutable resource files; aliasing through function arguments is tracked by annotation kinds and, for nested helpers, their call sites only.",
         "DESIGN.md §5 C12",
     ),
     "C13": (
         "call-graph reachability from the three entry points (typed receivers, name fan-out, function-valued fields, class/module aliases, factory tables, getattr reflection, address-taken references, rapid-type-analysis of implicitly invoked methods, property getters); raise-class inventory; exception-flow analysis (partial-operation table driven by an intra-procedural kind analysis of document values, handlers subtracting by the class hierarchy, summaries to a fixpoint, strict-mode branches pruned); recursion analysis (SCCs of the resolved call graph minus edges discharged by a dominating visited-set guard or a structural-descent witness); amplification scan of loop bounds and allocation sizes; return-dependence check of the casting.safe_* converters; dominance of the key-length validation over every use; seek / CBC / finalize / pop(n) in the partial-operation table",
-        "Decides, over everything reachable from extract_text / extract_pages / extract_text_to_fp, which internal exception classes may escape (by origin construct), which call cycles and reference-following loops lack a guard, and which loop bounds/allocation sizes are bare document integers. Today's tree has 89 such origins, each a genuine defect recorded in known_findings.jsonl (clusters confirmed with failing inputs); any new origin - a removed try, a narrowed except, int_value(x) replaced by x, a removed isinstance, a removed visited set, a new walker over Kids/Next/Prev - is a violation. A numeric work bound is not decided, and completeness is relative to the partial-operation and document-value tables. Also decides that safe_* return only converted values and that the RC4 key length is validated before any key of that length is cut. Negative seeks, short AES initialisation vectors, finalize() on partial blocks and operand-stack slices by unchecked values are origins too. Round 6: a length test only narrows an index when the relation is the right one (index < len on the way in, index >= len on the way out); the token list of an object stream is typed as a document list.",
+        "Decides, over everything reachable from extract_text / extract_pages / extract_text_to_fp, which internal exception classes may escape (by origin construct), which call cycles and reference-following loops lack a guard, and which loop bounds/allocation sizes are bare document integers. Today's tree has 89 such origins, each a genuine defect recorded in known_findings.jsonl (clusters confirmed with failing inputs); any new origin - a removed try, a narrowed except, int_value(x) replaced by x, a removed isinstance, a removed visited set, a new walker over Kids/Next/Prev - is a violation. A numeric work bound is not decided, and completeness is relative to the partial-operation and document-value tables. Also decides that safe_* return only converted values and that the RC4 key length is validated before any key of that length is cut. Negative seeks, short AES initialisation vectors, finalize() on partial blocks and operand-stack slices by unchecked values are origins too. Round 6: a length test only narrows an index when the relation is the right one (index < len on the way in, index >= len on the way out); the token list of an object stream is typed as a document list. Round 7: choplist yields full groups only (C13-R7).",
         "Trusts the tables in sa/doctaint.py and sa/rules/c13_ops.py (which accessors yield document values, which operations are partial), parameter annotations Dict/Mapping/PDFStream as established types, and the call-graph resolution. The exception family is PSException subclasses plus AssertionError (the repository's fuzz contract).",
         "DESIGN.md §5 C13",
     ),
     "C14": (
         "finite abstraction of the scanner automaton analysed completely (path enumeration of loop-free scanners with symbolic index arithmetic; zero-advance subgraph acyclicity), exception-flow analysis over the resolved call graph with a verified safe-table, buffer-read classification, write-set checks",
-        "The tokenizer's twelve scanner methods are abstracted to a finite automaton whose every transition is classified by the advance of the returned index; acyclicity of the zero-advance subgraph plus the driver-loop obligations give termination and non-decreasing positions for every byte string; the exception-flow analysis shows only PSEOF escapes; read classification shows tokens cannot depend on the buffer size. This is a complete analysis of the abstraction, not a sample of inputs.",
+        "The tokenizer's twelve scanner methods are abstracted to a finite automaton whose every transition is classified by the advance of the returned index; acyclicity of the zero-advance subgraph plus the driver-loop obligations give termination and non-decreasing positions for every byte string; the exception-flow analysis shows only PSEOF escapes; read classification shows tokens cannot depend on the buffer size. This is a complete analysis of the abstraction, not a sample of inputs. Round 7: no scanner state change inside a try whose handler swallows the exception (C14-R6).",
         "Assumes re.search/match terminate and agree with re._parser's width computation, the file object is finite, and the abstraction's reading of Python semantics (ast) is right. Scope is psparser.PSBaseParser (subclass overrides of fillbuf are outside C14).",
         "DESIGN.md §5 C14",
     ),
@@ -111,7 +111,7 @@ CLAIMED = {
     ),
     "C18": (
         "dispatch extraction of the export chain with emptiness-guard check, unit checks of BMP row sizes and header layout, order/strip-length extraction of the inline-image scanner; unique-name must-pass rule shared with C15; channel-order normal form of 24-bit BMP rows; predictor dispatch (shared with C03); regex-anchor and restart checks of the inline-data scanner; row-padding check of the BMP writer; PNG filter arithmetic (shared with C03); refill-sequence of the content parser; image-item bindings",
-        "Decides structural necessary conditions: export format dispatch never indexes an empty filter list; row byte counts for 1-bit/gray/RGB, 4-byte aligned line size, header fields, bottom-up rows; unique export names (shared with C15-R3); inline images: BI/ID context, data start one byte after ID, terminator + white space, exactly len(terminator)+1 bytes stripped, EI re-pushed. Pixel equality of the exported files is value level and not decided. Also decides that exported files never reuse an existing name (path-sensitive) and that 24-bit rows are re-ordered to B,G,R. Also decides that /Predictor 10..15 all go through PNG row decoding, that exactly one end-of-line is stripped before the inline terminator, that a failed partial terminator match restarts on the current byte, and that BMP rows are written padded. Also decides the PNG filter arithmetic for predicted image data, the buffer position used by the inline-image reader, and the bindings of LTImage / render_image / the image branch of Do. Round 6: no exported payload uses get_rawdata/.rawdata (C18-R13).",
+        "Decides structural necessary conditions: export format dispatch never indexes an empty filter list; row byte counts for 1-bit/gray/RGB, 4-byte aligned line size, header fields, bottom-up rows; unique export names (shared with C15-R3); inline images: BI/ID context, data start one byte after ID, terminator + white space, exactly len(terminator)+1 bytes stripped, EI re-pushed. Pixel equality of the exported files is value level and not decided. Also decides that exported files never reuse an existing name (path-sensitive) and that 24-bit rows are re-ordered to B,G,R. Also decides that /Predictor 10..15 all go through PNG row decoding, that exactly one end-of-line is stripped before the inline terminator, that a failed partial terminator match restarts on the current byte, and that BMP rows are written padded. Also decides the PNG filter arithmetic for predicted image data, the buffer position used by the inline-image reader, and the bindings of LTImage / render_image / the image branch of Do. Round 6: no exported payload uses get_rawdata/.rawdata (C18-R13). Round 7: predictor must-pass shared from C03 (C18-R7).",
         "Trusts the reading of the BMP format encoded in the rule.",
         "DESIGN.md §5 C18",
     ),
